@@ -62,9 +62,14 @@ class _SocketHub:
         # Register the callbacks before the socket becomes visible in _open_sockets:
         # a peer that sees the socket as open may send at once, and the message must
         # reach the callback instead of being stranded in the pending queue.
-        self._add_callbacks(socket)
-        self._open_sockets.add(socket.key)
-        self._remote_sockets.add(socket.key)
+        # Publish under the lock, so that a disconnect of the peer (which holds the
+        # lock) cannot fall between the two additions: otherwise the peer fails to
+        # remove our key from _remote_sockets, the key stays there for ever and a
+        # later socket with the peer's key "connects" to nobody.
+        with self._lock:
+            self._add_callbacks(socket)
+            self._open_sockets.add(socket.key)
+            self._remote_sockets.add(socket.key)
 
         self._wait_for_remote(socket, timeout=timeout)
 
